@@ -418,7 +418,7 @@ func c10(c *Ctx) {
 			// action, or (optional gate) the list-length test guarding the call does
 			entry := ssa.Instruction(ifi)
 			if d := g.call.Block().Idom(); d != nil && g.name != "exclude-metrics" {
-				if li, ok := d.Instrs[len(d.Instrs)-1].(*ssa.If); ok && strings.Contains(condExpr(li.Cond), "builtin len") && d.Succs[0] == g.call.Block() {
+				if li, ok := d.Instrs[len(d.Instrs)-1].(*ssa.If); ok && strings.Contains(condExpr(li.Cond), "builtin len") && (d.Succs[0] == g.call.Block() || d.Succs[1] == g.call.Block()) {
 					entry = li
 				}
 			}
@@ -438,7 +438,7 @@ func c10(c *Ctx) {
 			// the argument: metric name / tags of this metric
 			a := g.call.Common().Args
 			if g.name == "match-tags" {
-				r.Check("gate:"+g.name+":arg", paramIndex(uf, stripLoad(a[1])) == 3 || strings.Contains(pathOf(a[1]), "mTags"), g.call.Pos(), "tested against the metric's tags")
+				r.Check("gate:"+g.name+":arg", paramIndex(uf, stripLoad(stripConvVal(a[1]))) == 3, g.call.Pos(), "tested against the metric's tags: "+pathOf(a[1])+fmt.Sprintf(" (%T)", a[1]))
 			} else {
 				r.Check("gate:"+g.name+":arg", paramIndex(uf, a[1]) == 1, g.call.Pos(), "tested against the metric's name")
 			}
@@ -450,7 +450,7 @@ func c10(c *Ctx) {
 			}
 			cs := strings.Join(condStrings(g.call.Block()), " && ")
 			fld := map[string]string{"match-metrics": "MatchMetrics", "match-tags": "MatchTags"}[g.name]
-			r.Check("gate:"+g.name+":only-when-configured", strings.Contains(cs, "."+fld+")>0)=true"), g.call.Pos(), "evaluated only when the list is non-empty: "+cs)
+			r.Check("gate:"+g.name+":only-when-configured", knownNonEmpty(factsAt(g.call.Block()), func(v ssa.Value) bool { return strings.HasSuffix(pathOf(v), "."+fld) }), g.call.Pos(), "evaluated only when the list is non-empty: "+cs)
 		}
 		// actions are guarded by their flags / matchers
 		for _, a := range actions {
@@ -459,7 +459,29 @@ func c10(c *Ctx) {
 			case *ssa.Return:
 				r.Check("action:drop-metric:flag", strings.Contains(cs, ".DropMetric=true"), a.Pos(), cs)
 			case *ssa.MapUpdate:
-				r.Check("action:drop-tag:matched", strings.Contains(cs, ".Match(") && strings.Contains(cs, ")=true") && strings.Contains(pathOf(x.Key), "mTags["), a.Pos(), "the tag recorded as dropped is the tag that matched a drop-tags pattern: "+cs)
+				// the key is an element of the metric's tags, and a true test of a drop-tags pattern (or of the
+				// whole drop-tags list) against that very element is known here
+				okKey := false
+				if ld, ok := x.Key.(*ssa.UnOp); ok && ld.Op == token.MUL {
+					if ia, ok := ld.X.(*ssa.IndexAddr); ok && paramIndex(uf, stripLoad(stripConvVal(ia.X))) == 3 {
+						okKey = true
+					}
+				}
+				okTest := false
+				for _, f := range factsAt(a.Block()) {
+					if f.Op != token.ILLEGAL || !f.True {
+						continue
+					}
+					cl, ok := f.V.(*ssa.Call)
+					if !ok || staticCallee(cl) == nil {
+						continue
+					}
+					nm := staticCallee(cl).Name()
+					if (nm == "Match" || nm == "MatchAny") && len(cl.Call.Args) == 2 && strings.Contains(pathOf(cl.Call.Args[0]), ".DropTags") && cl.Call.Args[1] == x.Key {
+						okTest = true
+					}
+				}
+				r.Check("action:drop-tag:matched", okKey && okTest, a.Pos(), "the tag recorded as dropped is the tag that matched a drop-tags pattern: "+cs)
 			case *ssa.Store:
 				s, isS := constString(x.Val)
 				r.Check("action:drop-host:flag", strings.Contains(cs, ".DropHost=true") && isS && s == "", a.Pos(), cs)
@@ -493,7 +515,14 @@ func c10(c *Ctx) {
 			}
 			r.Check(fmt.Sprintf("uniqueFilterAndAddTags:loop#%d:exhaustive", n), len(bad) == 0, loopPos(b), "loop is left only on exhaustion or through 'return false' (drop-metric)"+map[bool]string{true: "", false: "; early exits: " + strings.Join(bad, ", ")}[len(bad) == 0])
 		}
-		r.Check("uniqueFilterAndAddTags:three-loops", n == 3, uf.Pos(), fmt.Sprintf("%d loops (filters, drop-tags patterns, tags)", n))
+		// the drop-tags patterns are covered by a loop of their own or by StringMatchList.MatchAny (C10.R1)
+		listTest := false
+		for _, cl := range callsIn(uf) {
+			if cal := staticCallee(cl); cal != nil && cal.Name() == "MatchAny" && len(cl.Common().Args) == 2 && strings.Contains(pathOf(cl.Common().Args[0]), ".DropTags") {
+				listTest = true
+			}
+		}
+		r.Check("uniqueFilterAndAddTags:three-loops", n == 3 || (n == 2 && listTest), uf.Pos(), fmt.Sprintf("%d loops (filters, drop-tags patterns, tags); drop-tags tested as a list: %v", n, listTest))
 	})
 
 	c.Rule("C10.R3", "static tags and de-duplication: every surviving metric's tags are the unique union of its tags and the static tags minus the dropped ones, computed with a fresh scratch set", 5, func(r *Rule) {
@@ -550,16 +579,60 @@ func c10(c *Ctx) {
 		}
 		c.SawFunc(FuncName(us))
 		okMark, okApp := false, false
+		// missKnown: at block b it is known that key is not in the seen set (comma-ok lookup was false)
+		missKnown := func(b *ssa.BasicBlock, key ssa.Value) bool {
+			for _, f := range factsAt(b) {
+				if f.Op != token.ILLEGAL || f.True {
+					continue
+				}
+				ex, ok := f.V.(*ssa.Extract)
+				if !ok || ex.Index != 1 {
+					continue
+				}
+				lk, ok := ex.Tuple.(*ssa.Lookup)
+				if ok && lk.CommaOk && paramIndex(us, stripConvVal(lk.X)) == 0 && (key == nil || lk.Index == key) {
+					return true
+				}
+			}
+			return false
+		}
+		// derives from parameter i through re-slicing, appends and phis
+		var fromParam func(v ssa.Value, i int, seen map[ssa.Value]bool) bool
+		fromParam = func(v ssa.Value, i int, seen map[ssa.Value]bool) bool {
+			if v == nil || seen[v] {
+				return false
+			}
+			seen[v] = true
+			if paramIndex(us, v) == i {
+				return true
+			}
+			switch x := v.(type) {
+			case *ssa.Phi:
+				for _, e := range x.Edges {
+					if fromParam(e, i, seen) {
+						return true
+					}
+				}
+			case *ssa.Slice:
+				return fromParam(x.X, i, seen)
+			case *ssa.ChangeType:
+				return fromParam(x.X, i, seen)
+			case *ssa.Call:
+				if isCall(x, "builtin append") {
+					return fromParam(x.Call.Args[0], i, seen)
+				}
+			}
+			return false
+		}
 		eachInstr(us, func(in ssa.Instruction) {
-			if mu, ok := in.(*ssa.MapUpdate); ok && paramIndex(us, mu.Map) == 0 {
-				cs := strings.Join(condStrings(mu.Block()), " && ")
-				if strings.Contains(cs, "#1=false") {
+			if mu, ok := in.(*ssa.MapUpdate); ok && paramIndex(us, stripConvVal(mu.Map)) == 0 {
+				if missKnown(mu.Block(), mu.Key) {
 					okMark = true
 				}
 			}
 			if cl, ok := in.(*ssa.Call); ok && isCall(cl, "builtin append") {
-				cs := strings.Join(condStrings(cl.Block()), " && ")
-				if strings.Contains(cs, "#1=false") && strings.Contains(pathOf(cl.Call.Args[0]), "t1") {
+				els := varargElems(cl.Call.Args[1])
+				if len(els) == 1 && missKnown(cl.Block(), els[0]) && fromParam(cl.Call.Args[0], 1, map[ssa.Value]bool{}) {
 					okApp = true
 				}
 			}
@@ -591,12 +664,18 @@ func c10(c *Ctx) {
 			if cl.Common().IsInvoke() && cl.Common().Method.Name() == "DispatchMetricMap" {
 				n++
 				arg := cl.Common().Args[1]
-				r.Check("forward:rebuilt-map", valueName(arg) == "mmNew" || func() bool {
-					c2, ok := arg.(*ssa.Call)
+				r.Check("forward:rebuilt-map", func() bool {
+					c2, ok := ptrOrigin(arg).(*ssa.Call)
 					return ok && isCall(c2, "gostatsd.NewMetricMap")
 				}(), cl.Pos(), "the map forwarded is "+pathOf(arg)+" (the input map must never be forwarded: its tags were not de-duplicated, filtered or re-keyed)")
 				cs := strings.Join(condStrings(cl.Block()), " && ")
-				r.Check("forward:iff-non-empty", strings.Contains(cs, "IsEmpty") && strings.Contains(cs, "=false") && len(condsFor(cl.Block())) == 1, cl.Pos(), "forwarded exactly when the rebuilt map is not empty: "+cs)
+				fs := factsAt(cl.Block())
+				okNE := len(fs) == 1 && fs[0].Op == token.ILLEGAL && !fs[0].True
+				if okNE {
+					ic, isC := fs[0].V.(*ssa.Call)
+					okNE = isC && isCall(ic, "(*gostatsd.MetricMap).IsEmpty") && ptrOrigin(ic.Call.Args[0]) == ptrOrigin(arg)
+				}
+				r.Check("forward:iff-non-empty", okNE, cl.Pos(), "forwarded exactly when the rebuilt map is not empty: "+cs)
 			}
 		}
 		r.Check("forward:one-site", n == 1, dm.Pos(), fmt.Sprintf("%d forward sites", n))
